@@ -31,6 +31,11 @@ type vdCase struct {
 	VOpt string `json:"vopt"` // the ValidatorTag option ("" = not given)
 }
 
+// vdInit: a named int type with InitDefaults (kind idint)
+type vdInit int
+
+func (v *vdInit) InitDefaults() { *v = 7 }
+
 var vdBase = map[string]string{"pint": "int", "pdur": "dur", "pstring": "string", "pfloat64": "float64"}
 var vdTypes = map[string]reflect.Type{"int": reflect.TypeOf(int(0)), "int8": reflect.TypeOf(int8(0)), "uint": reflect.TypeOf(uint(0)),
 	"float64": reflect.TypeOf(float64(0)), "dur": reflect.TypeOf(time.Duration(0)), "string": reflect.TypeOf(""),
@@ -141,7 +146,13 @@ func validatorsReplay(args []string) int {
 		if !isPtr {
 			base = c.Kind
 		}
+		if c.Kind == "idint" {
+			base = "int"
+		}
 		ft := vdTypes[base]
+		if c.Kind == "idint" {
+			ft = reflect.TypeOf(vdInit(0))
+		}
 		if isPtr {
 			ft = reflect.PtrTo(ft)
 		}
@@ -178,6 +189,9 @@ func validatorsReplay(args []string) int {
 			target := reflect.New(st)
 			if !c.Dflt.NilPtr {
 				d := vdGo(base, c.Dflt.N)
+				if c.Kind == "idint" {
+					d = d.Convert(ft)
+				}
 				if isPtr {
 					p := reflect.New(d.Type())
 					p.Elem().Set(d)
